@@ -202,6 +202,10 @@ func scripts() []Script {
 	add("doc-invalid", "doc", `{"a": [1, 2, }`, nil, nil, do)
 	add("doc-invalid", "doc", `[1, 2, 3] x`, nil, nil, do)
 	add("doc-invalid", "doc", `{"a": 1, "b"`, nil, nil, do)
+	// documents inside a larger text (the option every API-file reader uses)
+	add("doc-trailing", "doc-trailing", `{"a": [1, true]} GET /cats`, nil, nil, do)
+	add("doc-trailing", "doc-trailing", "[1, 2]\n    Body\n", nil, nil, do[:4])
+	add("doc-trailing", "doc-trailing", `"text"x`, nil, nil, do[1:4])
 	return out
 }
 
@@ -326,6 +330,8 @@ func build(sc Script, st *store) *object {
 		o.r = regex.New("@r", sc.Text)
 	case "doc":
 		o.d = jdoc.New("doc", sc.Text)
+	case "doc-trailing":
+		o.d = jdoc.New("doc", sc.Text, jdoc.AllowTrailingNonSpaceCharacters())
 	}
 	return o
 }
@@ -462,12 +468,12 @@ func perform(o *object, sc Script, op string) (string, []held) {
 			if err == nil {
 				hs = append(hs, held{what: "bytes of regex OpenAPI MarshalJSON()", bytes: b, snapshot: string(b)})
 			}
-		case "doc:check":
+		case "doc:check", "doc-trailing:check":
 			out = errText(o.d.Check())
-		case "doc:len":
+		case "doc:len", "doc-trailing:len":
 			n, err := o.d.Len()
 			out = fmt.Sprintf("%d,%s", n, errText(err))
-		case "doc:lexemes", "doc:lexemes3":
+		case "doc:lexemes", "doc:lexemes3", "doc-trailing:lexemes", "doc-trailing:lexemes3":
 			var b strings.Builder
 			limit := 1000
 			if op == "lexemes3" {
@@ -716,7 +722,11 @@ type QCase struct {
 func orderFree(sc Script, op string) bool {
 	switch sc.Kind + ":" + op {
 	case "schema:check", "schema:len", "schema:ast", "schema:used", "enum:check", "enum:values", "enum:ast", "enum:len",
-		"regex:check", "regex:pattern", "regex:len", "doc:check", "doc:len":
+		"regex:check", "regex:pattern", "regex:len", "doc:check", "doc:len", "doc-trailing:check", "doc-trailing:len":
+		return true
+	case "doc:lexemes", "doc-trailing:lexemes":
+		// a complete iteration that is the first one on its object starts at the beginning, whatever was
+		// asked before it (questionOrder looks at the position)
 		return true
 	case "schema:example", "schema:openapi", "schema:typeopenapi":
 		for _, t := range sc.Types {
@@ -739,6 +749,13 @@ func questionOrder(c QCase) *ev.Verdict {
 	op := sc.Ops[c.Op]
 	if !orderFree(sc, op) {
 		return nil
+	}
+	if op == "lexemes" {
+		for _, before := range sc.Ops[:c.Op] {
+			if before == "lexemes" || before == "lexemes3" {
+				return nil // (continues or follows another iteration)
+			}
+		}
 	}
 	got := alone(c.Script)
 	single := sc
@@ -794,7 +811,12 @@ func TestPropPairs(t *testing.T) {
 	ev.KeepFirst("pairs")
 	var n, bad int64
 	idx := 0
-	stride := ev.N(3, 1)
+	// quick: about 9000 of the ordered pairs (every one of them in thorough)
+	q := len(pool) * len(pool) / 9000
+	if q < 3 {
+		q = 3
+	}
+	stride := ev.N(q, 1)
 	for a := range pool {
 		for b := range pool {
 			idx++
